@@ -242,7 +242,7 @@ def write_evidence(cid, mod, tier, seed, merged, new, old, wall):
         "observed_sets": {k: sorted(v, key=str)[:80] for k, v in merged.sets.items()},
         "observed_set_sizes": {k: len(v) for k, v in merged.sets.items()},
         "known_finding_hits": {v["key"]: v["count"] for v in old},
-        "new_violation_keys": [v["key"] for v in new][:50],
+        "new_violation_keys": [v["key"] for v in new][:400],
         "inconclusive": merged.inconclusive[:10],
     }
     if merged.flags:
